@@ -98,6 +98,9 @@ func vfGenPositiveFilter(rt *rapid.T, stored map[string][]vfMVal, metas []map[st
 		case "ne", "not_in", "not_exists":
 			continue
 		}
+		if vfCrossTyped(&f) {
+			continue // numeric operands of the other Go type are C04's open finding KF-3: not generated here
+		}
 		return f
 	}
 }
